@@ -1,4 +1,5 @@
 import PycModel.Proofs.LexerTotal
+import PycModel.Proofs.LexerPos
 import PycModel.Spec.Tokens
 import PycModel.Generated.LexTables
 /-!
@@ -31,5 +32,34 @@ theorem impl_punctuators :
 theorem scan_terminates_never_stuck (isType : String → Bool) (text : List Char) (file : String) :
     Ev.stuck ∉ scan Generated.lexCfg isType text file :=
   scan_no_stuck impl_lex_wf isType text file
+
+
+/-! ## position exactness -/
+open LexPos in
+/-- **Position-exact, all texts.** Every token the scanner returns before its first error report
+(i) has as value exactly the characters of the text at its offset, (ii) has the column of that
+offset counted from the character after the last preceding newline, (iii) has the line number
+"base line + newlines since the base offset", where the base is line 1 at offset 0 or what the
+most recent obeyed `#line` / linemarker directive established (`baseFrom`). -/
+theorem scan_position_exact (isType : String → Bool) (text : List Char) (file : String)
+    (pre : List Ev) (t : Token) (off : Nat) (f : String) (post : List Ev)
+    (h : scan Generated.lexCfg isType text file = pre ++ .tok t off f :: post)
+    (hpre : ∀ e ∈ pre, isErr e = false) :
+    Exact text (baseFrom (1, 0) pre).1 (baseFrom (1, 0) pre).2 t off :=
+  scanLoop_exact impl_lex_wf isType text _ _ 1 0 (inv_init text file) pre t off f post h hpre
+
+open LexPos in
+/-- corollary without directives: line = 1 + number of newlines before the token, and the value
+is the text at the offset -/
+theorem scan_line_is_newline_count (isType : String → Bool) (text : List Char) (file : String)
+    (pre : List Ev) (t : Token) (off : Nat) (f : String) (post : List Ev)
+    (h : scan Generated.lexCfg isType text file = pre ++ .tok t off f :: post)
+    (hpre : ∀ e ∈ pre, isErr e = false) (hnd : ∀ e ∈ pre, ∀ n x, e ≠ .dir n x) :
+    t.line = 1 + (text.take off).count '\n' ∧ (text.drop off).take t.val.length = t.val.toList := by
+  have hx := scan_position_exact isType text file pre t off f post h hpre
+  rw [baseFrom_clean _ _ hnd] at hx
+  refine ⟨?_, hx.spelling⟩
+  have := hx.line.2
+  simpa [seg, nlCount] using this
 
 end PycModel.C09
